@@ -82,6 +82,24 @@ func (c *Ctx) pf1Sites(f *core.Func) []*pf1Site {
 			if isOptionalASTField(info, n.X) {
 				kind = "NILOPT"
 			}
+		case *ast.CallExpr:
+			// make panics on a negative length or capacity
+			if isBuiltinCall(info, n, "make") && len(n.Args) >= 2 {
+				for _, a := range n.Args[1:] {
+					if tv, ok := info.Types[a]; ok && tv.Value == nil {
+						kind = "MAKE"
+					}
+				}
+			}
+			// bytes.Repeat / strings.Repeat panic on a negative count
+			switch calleeName(info, n) {
+			case "bytes.Repeat", "strings.Repeat":
+				if len(n.Args) == 2 {
+					if tv, ok := info.Types[n.Args[1]]; ok && tv.Value == nil {
+						kind = "REP"
+					}
+				}
+			}
 		}
 		if kind == "" {
 			return
@@ -469,6 +487,40 @@ func decide(fa *core.Facts, info *types.Info, kind string, n ast.Node, st *core.
 			}
 		}
 		return core.BoundsResult{Why: "single-value type assertion; dynamic type not established by a guard"}
+	case "MAKE":
+		if st == nil {
+			return core.BoundsResult{OK: true, Trivial: true, Why: "unreachable"}
+		}
+		call := n.(*ast.CallExpr)
+		for _, a := range call.Args[1:] {
+			if tv, ok := info.Types[a]; ok && tv.Value != nil {
+				continue
+			}
+			if y, ok := fa.Linearize(a); ok && st.ProveLinLE(core.Lin{}, y, 0) {
+				continue
+			}
+			// len(x) - k with len(x) >= k known (an axiom of the type or field)
+			if be, ok := ast.Unparen(a).(*ast.BinaryExpr); ok && be.Op == token.SUB {
+				if lc, ok := ast.Unparen(be.X).(*ast.CallExpr); ok && isBuiltinCall(info, lc, "len") && len(lc.Args) == 1 {
+					if k, ok := constInt(info, be.Y); ok && k >= 0 {
+						if ok2, _ := fa.ProveMinLen(lc.Args[0], st, int(k)); ok2 {
+							continue
+						}
+					}
+				}
+			}
+			return core.BoundsResult{Why: "a length or capacity handed to make may be negative"}
+		}
+		return core.BoundsResult{OK: true, Why: "sizes proved non-negative"}
+	case "REP":
+		if st == nil {
+			return core.BoundsResult{OK: true, Trivial: true, Why: "unreachable"}
+		}
+		call := n.(*ast.CallExpr)
+		if y, ok := fa.Linearize(call.Args[1]); ok && st.ProveLinLE(core.Lin{}, y, 0) {
+			return core.BoundsResult{OK: true, Why: "repeat count proved non-negative"}
+		}
+		return core.BoundsResult{Why: "the repeat count may be negative (bytes.Repeat / strings.Repeat panic)"}
 	case "DIV":
 		if st == nil {
 			return core.BoundsResult{OK: true, Trivial: true, Why: "unreachable"}
